@@ -190,7 +190,9 @@ where
                 }
                 _ => rnd[t] >> (64 - F::BITS),
             };
-            chain.rng = crafted_rng(k << F::SHIFT);
+            // the low bits of the generator word do not enter an F-typed uniform draw: fill them with noise
+            let low = if t % 2 == 0 { (1u64 << F::SHIFT) - 1 } else { rnd[t] & ((1u64 << F::SHIFT) - 1) };
+            chain.rng = crafted_rng((k << F::SHIFT) | low);
             let u: F = F::from64(k as f64 / (1u64 << F::BITS) as f64);
             let new = chain.step().clone();
             let cid = format!("{id}.{t}");
